@@ -7,6 +7,8 @@ STRENGTHENED = {
     "C01-1": "3-D meshes with a non-square cross-section added to the overhang items",
     "C02-1": "print_timing paths (timing bookkeeping rotates the module list) added to the wiring grid",
     "C02-2": "dyadic (DyadCarrier) sensitivities shared between two consumers added to C02; DyadCarrier values to C18",
+    "C03-1": "sparse EigenSolve template in C03 (n = 3, two modes, per-mode seeding over two rounds); the singular adjoint systems "
+             "(A - lambda_i B)^T v = r are answered by an 'any solution' contract oracle",
     "C04-1": "LAPACK overwrite_a/overwrite_b modelled as destroying the array handed in; early 'input state after the first response' clause; column-major concrete twin",
     "C04-2": "scalar seeds handed over as mutable 0-d arrays for the scaled aggregations",
     "C06-2": "history with T solves before and after update() (adjoint storage)",
@@ -22,12 +24,7 @@ STRENGTHENED = {
     "C19-2": "complex inputs with relative_dx in the quick tier (and the replay enumerates complex entries correctly)",
     "C20-1": "the same DomainDefinition written three times; domain compared before/after",
 }
-NOT_CAUGHT = {
-    "C03-1": "outside the claim: sparse EigenSolve eigenvector sensitivities solve the singular system (A - lambda_i B)^T v = r "
-             "with cached per-mode factorisations; the result relies on how an LU of a numerically singular matrix rounds, which "
-             "exact arithmetic cannot represent (Cramer/adjugate and the contract oracle need a non-singular matrix). "
-             "C03 covers the dense EigenSolve only. Expected miss, documented in DESIGN.md 10.6.",
-}
+NOT_CAUGHT = {}
 rows = []
 for d in sorted(glob.glob(os.path.join(HERE, "seeded", "C*-*"))):
     sid = os.path.basename(d)
